@@ -242,6 +242,8 @@ Proof.
   - eapply op_recv_core; eauto.
   - injection Hs as <- <-. exact H.
   - injection Hs as <- <-. apply advance_core. exact H.
+  - unfold op_recv_cancelled in Hs. destruct (require_accepted w); [injection Hs as <- <-; exact H|].
+    destruct (would_park c w); [injection Hs as <- <-; exact H|]. eapply op_recv_core; eauto.
 Qed.
 
 Lemma run_script_core hr c sc : forall w rs e w',
@@ -381,6 +383,9 @@ Proof.
   - left. eapply op_recv_exc; eauto.
   - right. injection H as <- <-. eauto.
   - discriminate.
+  - left. unfold op_recv_cancelled in H. destruct (require_accepted w) eqn:E.
+    + injection H as <- <-. eapply require_accepted_exc; eauto.
+    + destruct (would_park c w); [discriminate|]. eapply op_recv_exc; eauto.
 Qed.
 
 Definition status_ok (s : Z) : Prop := valid_code (s + ws_code_offset) = true.
